@@ -4,6 +4,25 @@ from .transform import *
 import numpy as np
 
 
+def _to_key(expr):
+    # Like str(expr), but identifies axes by their (unique) name rather than by their value, such that
+    # different unnamed axes with the same length (e.g. "(2) (2)") are not treated as the same expression.
+    if isinstance(expr, list):
+        return " ".join([_to_key(c) for c in expr])
+    elif isinstance(expr, Axis):
+        return expr.name
+    elif isinstance(expr, List):
+        return " ".join([_to_key(c) for c in expr.children])
+    elif isinstance(expr, FlattenedAxis):
+        return f"({_to_key(expr.inner)})"
+    elif isinstance(expr, Brackets):
+        return f"[{_to_key(expr.inner)}]"
+    elif isinstance(expr, ConcatenatedAxis):
+        return "(" + " + ".join([_to_key(c) for c in expr.children]) + ")"
+    else:
+        raise TypeError(f"Invalid expression type {type(expr)}")
+
+
 def cse(expressions, cse_concat=True, cse_in_brackets=False, verbose=False):
     expressions = list(expressions)
     if any(expr is not None and not isinstance(expr, Expression) for expr in expressions):
@@ -15,14 +34,14 @@ def cse(expressions, cse_concat=True, cse_in_brackets=False, verbose=False):
         if root is not None:
             for expr in root.nodes():
                 if expr.parent is not None:
-                    str_expr = str(expr)
+                    str_expr = _to_key(expr)
                     str_to_common_expr[str_expr].append([expr])
 
                     if isinstance(expr, List):
                         for start_index in range(len(expr.children)):
                             for end_index in range(start_index, len(expr.children)):
                                 children = expr.children[start_index : end_index + 1]
-                                str_expr = " ".join([str(c) for c in children])
+                                str_expr = _to_key(children)
                                 str_to_common_expr[str_expr].append(children)
 
     if verbose:
